@@ -7,6 +7,8 @@ pub mod generics;
 pub mod parser;
 pub mod plugins;
 pub mod examples;
+#[cfg(mdit_verif)]
+pub mod verif_hooks;
 
 pub use parser::node::{Node, NodeValue};
 pub use parser::main::MarkdownIt;
